@@ -6,6 +6,7 @@ import (
 	"flag"
 	"fmt"
 	"os"
+	"regexp"
 	"sort"
 	"strings"
 
@@ -23,30 +24,35 @@ type detSubject struct {
 }
 
 type detRec struct {
-	Sig          string   `json:"sig"`
-	Atoms        []string `json:"atoms"`
-	Cfg          string   `json:"cfg"`
-	Baseline     string   `json:"baseline"`
-	Points       int      `json:"points"` // scheduling points of the baseline execution
-	Execs        int      `json:"execs"`
-	Transitions  int      `json:"transitions"`
-	States       int      `json:"states"`
-	SchedExecs   int      `json:"sched_execs"`
-	OrderExecs   int      `json:"order_execs"`
-	Sites        int      `json:"relevant_sites"`
-	Ties         int      `json:"ties"`
-	Capped       bool     `json:"capped"`
-	UnstableTrace bool    `json:"unstable_trace"` // the scheduling-point trace of two identical runs differs (result equal)
-	Violations   []string `json:"violations"`
-	Preempted    int      `json:"preempted"` // executions with >= 1 preemption or >= 1 deviating site
+	Sig           string   `json:"sig"`
+	Atoms         []string `json:"atoms"`
+	Cfg           string   `json:"cfg"`
+	Baseline      string   `json:"baseline"`
+	Points        int      `json:"points"` // scheduling points of the baseline execution
+	Execs         int      `json:"execs"`
+	Transitions   int      `json:"transitions"`
+	States        int      `json:"states"`
+	SchedExecs    int      `json:"sched_execs"`
+	OrderExecs    int      `json:"order_execs"`
+	Sites         int      `json:"relevant_sites"`
+	Ties          int      `json:"ties"`
+	Capped        bool     `json:"capped"`
+	UnstableTrace bool     `json:"unstable_trace"` // the scheduling-point trace of two identical runs differs (result equal)
+	Violations    []string `json:"violations"`
+	Preempted     int      `json:"preempted"` // executions with >= 1 preemption or >= 1 deviating site
 }
 
+var nodeIDRe = regexp.MustCompile(`#[0-9]+(\.[0-9]+)?`)
+
+// normIDs replaces graph-node ids (drawn from a process-global counter, so they depend on how many analyses ran before in
+// this worker process - a harness artefact) by a placeholder.
+func normIDs(s string) string { return nodeIDRe.ReplaceAllString(s, "#N") }
+
+// canonResult is what C06 compares: the reported flows and escapes, whether the analysis returned an error (the error
+// TEXT is not part of the property: which of several accumulated messages comes first is not a reported result), and
+// the panic message if it crashed.
 func canonResult(r drv.TaintResult) string {
-	e := r.Err
-	if len(e) > 160 {
-		e = e[:160]
-	}
-	return fmt.Sprintf("flows=%v escapes=%v err=%q panic=%q", r.Flows, r.Escapes, e, r.Panic)
+	return fmt.Sprintf("flows=%v escapes=%v err=%v panic=%q", r.Flows, r.Escapes, r.Err != "", normIDs(r.Panic))
 }
 
 func determinismCmd(args []string) int {
@@ -75,7 +81,7 @@ func determinismCmd(args []string) int {
 	w := bufio.NewWriter(of)
 	defer w.Flush()
 	cfgOf := map[string]drv.Cfg{"default": {}, "fs": {FieldSensitive: true}, "od": {OnDemand: true}, "esc": {Escape: true},
-		"fs+od": {FieldSensitive: true, OnDemand: true}}
+		"fs+od": {FieldSensitive: true, OnDemand: true}, "ma1": {MaxAlarms: 1}, "ma2": {MaxAlarms: 2}}
 	sc := bufio.NewScanner(f)
 	sc.Buffer(make([]byte, 1<<20), 1<<24)
 	idx := -1
@@ -94,14 +100,44 @@ func determinismCmd(args []string) int {
 			fmt.Fprintf(os.Stderr, "BEGIN %d %s %s\n", idx, sub.Sig, cname)
 			rec := detRec{Sig: sub.Sig, Atoms: sub.Atoms, Cfg: cname}
 			var result string
+			// max-alarms: which k flows are kept may vary, the untruncated set they are drawn from may not: the canonical
+			// result is (number of flows kept, all kept flows are in the untruncated set of the default configuration)
+			var full map[string]bool
+			if cfg.MaxAlarms > 0 {
+				full = map[string]bool{}
+				if l, err := drv.LoadInProcess(sub.Src, gen.AnalysisRT); err == nil {
+					r, _ := drv.RunTaint(l, drv.Cfg{})
+					for _, f := range r.Flows {
+						full[f] = true
+					}
+				}
+			}
 			body := func() {
 				l, err := drv.LoadInProcess(sub.Src, gen.AnalysisRT)
 				if err != nil {
 					result = "LOADERR " + err.Error()
 					return
 				}
-				r, _ := drv.RunTaint(l, cfg)
-				result = canonResult(r)
+				switch {
+				case cname == "bt" || cname == "bt+od":
+					result = normIDs(drv.RunBacktraceCanon(l, cname == "bt+od"))
+				case cfg.MaxAlarms > 0:
+					r, _ := drv.RunTaint(l, cfg)
+					outside := []string{}
+					for _, f := range r.Flows {
+						if !full[f] {
+							outside = append(outside, f)
+						}
+					}
+					want := len(full)
+					if want > cfg.MaxAlarms {
+						want = cfg.MaxAlarms
+					}
+					result = fmt.Sprintf("kept=%d (expected min(k,|full|)=%d) outside-untruncated-set=%v panic=%q", len(r.Flows), want, outside, r.Panic)
+				default:
+					r, _ := drv.RunTaint(l, cfg)
+					result = canonResult(r)
+				}
 			}
 			env := func(ncpu int, extra map[string]int) map[string]int {
 				m := map[string]int{"NumCPU": ncpu, "order:*": 0}
